@@ -12,3 +12,5 @@ Proof.
   set (n := Z.of_nat (length d)). assert (0 <= n) by (unfold n; lia).
   tie_auto.
 Qed.
+
+#[global] Hint Rewrite src_op_push_data_eq : tie.
